@@ -1,2 +1,114 @@
-(* placeholder *)
-From Cfg Require Import Model.StreamFraming.
+(* C32 SSE and HTTP-stream framing deliver each message intact.
+   Property theorems only; proofs live in Proofs/StreamFraming.v and
+   Proofs/StreamFramingHarness.v.
+
+   Server side: [sse_frame true] (handler_sse.go after fixes/C32-sse-strip-cr.patch),
+   [json_frame], [pb_frame] (handler_http_stream.go).  Client side: [sse_parse] (WHATWG
+   event-stream interpretation), [ndjson_parse], [pb_parse], written from the standards. *)
+From Coq Require Import List NArith Bool.
+From Cfg Require Import Model.Decimal Model.StreamFraming Proofs.StreamFraming
+  Harness.C32 Proofs.StreamFramingHarness.
+Import ListNotations.
+Open Scope N_scope.
+
+(* SSE: for ALL message lists without raw LF (the protocol's JSON encoder strips raw LF
+   from raw payloads and escapes it inside strings; corr checks this on every queued
+   message) an EventSource parser receives exactly one event per message, in order, of
+   the default type, whose data is the message with raw CRs removed ... *)
+Theorem C32_sse :
+  forall msgs, Forall (fun m => lf_free m = true) msgs ->
+    sse_parse (sse_frame true msgs) = map (fun m => mkEv [] (strip_cr m)) msgs.
+Proof. exact sse_roundtrip. Qed.
+Print Assumptions C32_sse.
+
+(* ... which for JSON texts (no raw control character inside a string literal) is the
+   same JSON text up to insignificant whitespace: the content decodes to the same message. *)
+Theorem C32_sse_content :
+  forall msgs,
+    Forall (fun m => lf_free m = true) msgs ->
+    Forall (fun m => json_clean m = true) msgs ->
+    map ev_type (sse_parse (sse_frame true msgs)) = map (fun _ => []) msgs /\
+    map (fun e => normalise (ev_data e)) (sse_parse (sse_frame true msgs)) = map normalise msgs.
+Proof. exact sse_roundtrip_content. Qed.
+Print Assumptions C32_sse_content.
+
+(* the same for any later slice of the body (the handler writes batch by batch) *)
+Theorem C32_sse_chunk :
+  forall msgs, Forall (fun m => lf_free m = true) msgs ->
+    sse_parse (flat_map (sse_msg true) msgs) = map (fun m => mkEv [] (strip_cr m)) msgs.
+Proof. exact sse_chunk_roundtrip. Qed.
+Print Assumptions C32_sse_chunk.
+
+(* Before the fix the statement is false (finding F8): {"a":<CR>1} is a JSON text the
+   protocol accepts, and the event a conforming parser receives is cut at the CR. *)
+Theorem C32_sse_unfixed_refuted :
+  exists msgs,
+    Forall (fun m => lf_free m = true) msgs /\ Forall (fun m => json_clean m = true) msgs /\
+    map (fun e => normalise (ev_data e)) (sse_parse (sse_frame false msgs)) <> map normalise msgs.
+Proof. exact sse_unfixed_refuted. Qed.
+Print Assumptions C32_sse_unfixed_refuted.
+
+(* HTTP streaming, JSON: records split at LF are exactly the messages (raw CR is legal
+   JSON whitespace inside a record). *)
+Theorem C32_ndjson :
+  forall msgs, Forall (fun m => lf_free m = true) msgs -> ndjson_parse (json_frame msgs) = msgs.
+Proof. exact ndjson_roundtrip. Qed.
+Print Assumptions C32_ndjson.
+
+(* HTTP streaming, Protobuf: ALL binary messages (any bytes, shorter than 2^56). *)
+Theorem C32_pb :
+  forall msgs, Forall pb_small msgs ->
+    pb_parse (S (length (pb_frame msgs))) (pb_frame msgs) = Some msgs.
+Proof. exact pb_roundtrip. Qed.
+Print Assumptions C32_pb.
+
+Theorem C32_strip_cr_same_json :
+  forall m, json_clean m = true -> normalise (strip_cr m) = normalise m.
+Proof. exact strip_cr_same_json. Qed.
+Print Assumptions C32_strip_cr_same_json.
+
+(* the decidable oracle is sound, and the model passes it on all inputs of its domain *)
+Theorem C32_oracle_sound :
+  forall c, oracle c = true ->
+    match c with
+    | CSsePre body => exists e, sse_parse body = [e] /\ ev_type e = []
+    | CSse body ref => Forall2 same_event (sse_parse body) ref
+    | CNd body ref => ndjson_parse body = ref
+    | CPb body ref => pb_parse (S (length body)) body = Some ref
+    end.
+Proof. exact oracle_sound. Qed.
+Print Assumptions C32_oracle_sound.
+
+Theorem C32_model_meets_oracle :
+  forall ref,
+    (Forall (fun m => lf_free m = true) ref -> Forall (fun m => json_clean m = true) ref ->
+     oracle (CSse (flat_map (sse_msg true) ref) ref) = true) /\
+    (Forall (fun m => lf_free m = true) ref -> oracle (CNd (json_frame ref) ref) = true) /\
+    (Forall pb_small ref -> oracle (CPb (pb_frame ref) ref) = true).
+Proof. exact model_meets_oracle. Qed.
+Print Assumptions C32_model_meets_oracle.
+
+(* ---- non-vacuity ---- *)
+Example C32_ex_sse :     (* messages  {"a":<CR>1}  and  {"s":"data: x"}  *)
+  sse_parse (sse_frame true [[123;34;97;34;58;13;49;125]; [123;34;115;34;58;34;100;97;116;97;58;32;120;34;125]])
+  = [mkEv [] [123;34;97;34;58;49;125]; mkEv [] [123;34;115;34;58;34;100;97;116;97;58;32;120;34;125]].
+Proof. vm_compute. reflexivity. Qed.
+
+Example C32_ex_sse_unfixed_cut :   (* before the fix the first event is  {"a":  *)
+  sse_parse (sse_frame false [[123;34;97;34;58;13;49;125]]) = [mkEv [] [123;34;97;34;58]].
+Proof. vm_compute. reflexivity. Qed.
+
+Example C32_ex_sse_standard :      (* the parser follows the standard: comments, CRLF, multi-line data, event type *)
+  sse_parse [58;120;13;10; 101;118;101;110;116;58;32;116;10; 100;97;116;97;58;97;13; 100;97;116;97;58;32;98;10; 10; 100;97;116;97;10;10]
+  = [mkEv [116] [97;10;98]; mkEv [] []].
+Proof. vm_compute. reflexivity. Qed.
+
+Example C32_ex_pb :
+  pb_parse 10 (pb_frame [[10;13;0]; []; repeat 7 130]) = Some [[10;13;0]; []; repeat 7 130].
+Proof. vm_compute. reflexivity. Qed.
+
+Example C32_ex_json_clean :
+  json_clean [123;34;97;34;58;13;49;125] = true /\           (* {"a":<CR>1} *)
+  json_clean [34;97;13;34] = false /\                        (* "a<CR>" : raw CR inside a string is not JSON *)
+  normalise [123;32;34;97;32;34;9;58;13;10;49;125] = [123;34;97;32;34;58;49;125].
+Proof. vm_compute. auto. Qed.
